@@ -319,6 +319,9 @@ def check(report: Report, repo: Repo) -> None:
         if kn.endswith("linear"):
             forms.append(("third omitted", list(names3[:2]), []))
             forms.append(("third by keyword", list(names3[:2]), [names3[2]]))
+        # operands given by keyword, in an order other than the signature's (Dynamo keeps the caller's order)
+        forms.append(("first positional, third then second by keyword", [names3[0]], [names3[2], names3[1]]))
+        forms.append(("all three by keyword, reversed", [], list(reversed(names3))))
         for mname in more:
             forms.append((f"'{mname}' by keyword", list(names3), [mname]))
         if more:
